@@ -4,7 +4,7 @@ cd "$(dirname "$0")/.."
 fail=0
 for d in seeded/${1:-*}/; do
   d=${d%/}
-  id=$(python3 -c "import json,sys; m=json.load(open('$d/meta.json')); print(m.get('breaks_property') or m.get('property'))")
+  id=$(python3 -c "import json,sys; m=json.load(open('$d/meta.json')); print(' '.join(m.get('recheck_with') or [m.get('breaks_property') or m.get('property')]))")
   out=$(tools/mutate.sh $d/patch.diff $id 2>&1 | grep "^== ")
   n=$(echo "$out" | sed -n 's/.*VIOLATION lines=\([0-9]*\).*/\1/p')
   echo "$(basename $d) $id violations=${n:-?}"
